@@ -141,7 +141,7 @@ def liveHandles (st : HState) : Nat := (st.n.injectors.filter (fun p => p.2 = st
 def snapOracle (e : HEnv) (st : HState) (snap : String) : List String := Id.run do
   let mut bad : List String := []
   match snap.splitOn "/" with
-  | [cnt, pid, ms, oks, vals] =>
+  | [cnt, pid, ms, oks, vals, _] =>
     let cnt := cnt.toNat?.getD 0
     let pid := pid.toNat?.getD 0
     let ms : List (Nat × Nat) := if ms = "-" then [] else (ms.splitOn ",").filterMap fun m =>
